@@ -14,6 +14,8 @@ pub struct DiffRef {
     pub cond_focus: bool,
     /// spell conditionals with an empty no-branch without the `|` (documented: "empty if omitted")
     pub omit_empty_no: bool,
+    /// search only from offset 0 (used for the long-text stage)
+    pub only_pos0: bool,
 }
 
 pub struct DP {
@@ -91,6 +93,10 @@ impl PatProp for DiffRef {
             st.class(&format!("feature:{}", f));
         }
         Prep::Ready(DP { re, prog: refm::compile(n), vm, interesting_groups: groups_in_context(n, false), has_cond: n.has_cond() })
+    }
+
+    fn all_offsets(&self) -> bool {
+        !self.only_pos0
     }
 
     fn spell(&self, n: &Node) -> String {
